@@ -3,7 +3,7 @@ Model: lean/RedisGoModel/Ds/ZTree.lean (the tree of memdb/btree.go), Exec/ZSet.l
 tie: exec engine (server.Manager.ExecCommand + VerifDump hook: the tree is compared node for node, with stored heights, len and dict)."""
 import random
 
-from .. import core, execgen, execgen_zset, execsuite, families
+from .. import core, execgen, execgen_zset, execsuite, families, concsuite
 
 
 def run(R, ctx):
@@ -20,6 +20,11 @@ def run(R, ctx):
              "(12-40 distinct scores in ascending/descending/zig-zag/random order, score-mates, moves, member-by-member removal); the dump "
              "compares the AVL tree node for node (scores, stored heights, names), len, node count and the member index; refused-command scenarios followed by a full dump (a refused command changes nothing)")
 
+    rule = R.rule
+    concsuite.run_conc(R, ctx, "zset-conc", ['addrem', 'bigread'], (2, 12), race=False)
+    R.rule = rule + " Concurrent scenario(s) addrem,bigread of the conc engine (see C05): the family's containers under concurrent clients, verdict by invariants that need no history search."
 
 def replay(R, payload):
+    if payload.get("engine") == "conc":
+        return concsuite.replay_conc(R, payload)
     return core.generic_replay(R, payload)
